@@ -7,12 +7,19 @@
   tokio's `Notify` is the hypothesis built into the `wake` step ("a `Notified` completes exactly
   when `notify_waiters` has been called since it was created").
 
-  * safety            `wait_safe`, `wait_safe_holders`
-  * no lost wake-up   `no_lost_wakeup`, `deadlock_free`
-  * termination       `variant_strictly_decreases`, `schedules_are_bounded`, `wait_terminates`,
-                      `returns_once_finished`
-  * model ⊨ spec      `seq_history_spec` (every sequential history, every poll, judged by `Spec.C41.specPoll`)
-  * negative control  `notify_before_release_counterexample` (the swapped `drop` deadlocks)
+  * safety            `wait_safe`, `wait_safe_holders`, and for ANY Notify semantics `wait_safe_any_notify`
+  * no lost wake-up   `no_lost_wakeup_partial`, `deadlock_free_partial`
+  * termination       `variant_strictly_decreases`, `schedules_are_bounded`, `wait_terminates_partial`,
+                      `returns_once_finished_partial`
+  * model ⊨ spec      `seq_history_spec_partial` (every sequential history, every poll, judged by `Spec.C41.specPoll`)
+  * Notify hypothesis `notify_hypothesis_suffices` (explicit-hypothesis form: under
+                      `∀ ep e, ready ep e = tokioReady ep e` the parametrised system `stepN ready` IS `step`, so
+                      every `_partial` theorem holds of it), `lossy_notify_counterexample` (it is needed)
+  * negative controls `notify_before_release_counterexample` (the swapped `drop` deadlocks),
+                      `arm_after_check_counterexample` (`notified()` created after the count check deadlocks)
+
+  `_partial` = proved for the model whose `wake` step is tokio's documented `Notify` semantics (not
+  verified; FULL statement = the same for the real tokio `Notify`, `Arc` and scheduler).
 -/
 import Lumina.Proofs.Counter
 import Lumina.Gen.C41
@@ -48,7 +55,7 @@ theorem wait_safe_holders {s : State} (h : Reachable s) (hd : s.waiter = .done) 
 
 /-- NO LOST WAKE-UP.  A waiter blocked on the `Notified` it created at epoch `e`, in a state where
     every guard has finished its drop, is enabled: the notification it waits for has happened. -/
-theorem no_lost_wakeup {s : State} (h : Reachable s) (e : Nat) (hw : s.waiter = .awaiting e)
+theorem no_lost_wakeup_partial {s : State} (h : Reachable s) (e : Nat) (hw : s.waiter = .awaiting e)
     (hall : ∀ g ∈ s.guards, g = .notified) :
     step s .wake = some { s with waiter := .rearming } := by
   have inv := inv_reachable h
@@ -62,7 +69,7 @@ theorem no_lost_wakeup {s : State} (h : Reachable s) (e : Nat) (hw : s.waiter = 
 
 /-- DEADLOCK FREEDOM.  While a wait is in progress, some step of the protocol itself (a guard's
     `take`/`notify_waiters`, or the waiter's next statement) is enabled. -/
-theorem deadlock_free {s : State} (h : Reachable s) (hi : s.waiter ≠ .idle) (hd : s.waiter ≠ .done) :
+theorem deadlock_free_partial {s : State} (h : Reachable s) (hi : s.waiter ≠ .idle) (hd : s.waiter ≠ .done) :
     ∃ l, l.isExternal = false ∧ (step s l).isSome = true :=
   progress h hi hd
 
@@ -82,7 +89,7 @@ theorem schedules_are_bounded {s s' : State} {ls : List Label} (hr : run s ls = 
     (one that stops only when no protocol step is enabled — weak fairness) ends with the wait
     returned; together with `schedules_are_bounded` every fair schedule returns within
     `variant s` steps. -/
-theorem wait_terminates {s s' : State} {ls : List Label} (h : Reachable s) (hi : s.waiter ≠ .idle)
+theorem wait_terminates_partial {s s' : State} {ls : List Label} (h : Reachable s) (hi : s.waiter ≠ .idle)
     (hr : run s ls = some s') (hl : ∀ l ∈ ls, l.isExternal = false)
     (hmax : ∀ l, l.isExternal = false → step s' l = none) : s'.waiter = .done := by
   have hr' := reachable_run h hr
@@ -95,7 +102,7 @@ theorem wait_terminates {s s' : State} {ls : List Label} (h : Reachable s) (hi :
 
 /-- "…and it does return once they have finished": when every guard's drop has completed, ONE
     poll of the wait future completes it, whatever the waiter's current program point. -/
-theorem returns_once_finished {s : State} (h : Reachable s) (hall : ∀ g ∈ s.guards, g = .notified)
+theorem returns_once_finished_partial {s : State} (h : Reachable s) (hall : ∀ g ∈ s.guards, g = .notified)
     (hi : s.waiter ≠ .idle) : (poll s).waiter = .done :=
   poll_done_of_all_notified h hall hi
 
@@ -103,7 +110,7 @@ theorem returns_once_finished {s : State} (h : Reachable s) (hall : ∀ g ∈ s.
     (guards handed out, whole and half drops, waits, polls, cancellations, misuse) every poll result
     of the model is accepted by the independent checker `specPoll` evaluated on the history of
     operations. -/
-theorem seq_history_spec (ops : List SeqOp) : seqSpecAll init Hist.empty ops = true := by
+theorem seq_history_spec_partial (ops : List SeqOp) : seqSpecAll init Hist.empty ops = true := by
   suffices H : ∀ (s : State) (h : Hist), Reachable s → Agree s h → seqSpecAll s h ops = true from
     H _ _ Reachable.init agree_init
   induction ops with
@@ -122,6 +129,55 @@ theorem seq_history_spec (ops : List SeqOp) : seqSpecAll init Hist.empty ops = t
         simp only [seqStep] at hout
         (repeat' (split at hout)) <;> subst hout <;> rfl
     · exact ih _ _ (seqStep_reachable op hr) (agree_step op ha)
+
+/-- SAFETY does not depend on `Notify` at all: for ANY semantics `ready` of the `Notified` future
+    (even one that completes spuriously or never), `wait_guards` returns only after every guard
+    has released its count. -/
+theorem wait_safe_any_notify {ready : Nat → Nat → Bool} {s : State} (h : ReachableN ready s)
+    (hd : s.waiter = .done) : ∀ g ∈ s.guards, g = .dec ∨ g = .notified := by
+  intro g hg
+  have inv := safe_reachableN h
+  have h1 := inv.doneSafe hd g hg
+  have h2 := inv.noEarly g hg
+  cases g <;> simp_all
+
+/-- THE NOTIFY HYPOTHESIS, explicit: if the `Notified` future completes exactly when
+    `notify_waiters` has been called since its creation, the parametrised system coincides with
+    the model (`stepN ready = step`, same reachable states), so every theorem above named
+    `_partial` holds of it. -/
+theorem notify_hypothesis_suffices {ready : Nat → Nat → Bool}
+    (hN : ∀ ep e, ready ep e = tokioReady ep e) :
+    (∀ s l, stepN ready s l = step s l) ∧ (∀ s, ReachableN ready s → Reachable s) :=
+  ⟨stepN_congr hN, fun _ h => reachableN_reachable hN h⟩
+
+/-- … and the hypothesis is needed: with a `Notify` that loses one notification, the UNCHANGED
+    code deadlocks with its only guard finished. -/
+theorem lossy_notify_counterexample :
+    ∃ (ls : List Label) (s : State), runN lossyReady init ls = some s ∧
+      s.waiter = .awaiting 0 ∧ (∀ g ∈ s.guards, g = .notified) ∧
+      (∀ l, l.isExternal = false → stepN lossyReady s l = none) := by
+  refine ⟨[.newGuard, .call, .arm, .check, .decr 0, .notify 0],
+    { guards := [.notified], epoch := 1, waiter := .awaiting 0 }, by decide, rfl, by simp, ?_⟩
+  intro l hl
+  cases l <;> simp [Label.isExternal] at hl <;> simp [stepN, step, lossyReady]
+  case decr i => cases i <;> simp
+  case notify i => cases i <;> simp
+
+/-- NEGATIVE CONTROL for the order inside `wait_guards` ("arm before check").  In the variant
+    that creates the `Notified` only AFTER seeing `strong_count > 1`, the interleaving
+      guard; wait called; W: check (count 2 ⇒ go on); G: release, notify; W: create Notified, await
+    reaches a state where every guard has finished, the waiter is blocked on a `Notified` created
+    after the last notification, and NO protocol step is enabled: the lost wake-up. -/
+theorem arm_after_check_counterexample :
+    ∃ (ls : List Label) (s : State), runLate init ls = some s ∧
+      s.waiter = .awaiting 1 ∧ (∀ g ∈ s.guards, g = .notified) ∧
+      (∀ l, l.isExternal = false → stepLate s l = none) := by
+  refine ⟨[.newGuard, .call, .check, .decr 0, .notify 0, .rearm],
+    { guards := [.notified], epoch := 1, waiter := .awaiting 1 }, by decide, rfl, by simp, ?_⟩
+  intro l hl
+  cases l <;> simp [Label.isExternal] at hl <;> simp [stepLate, step]
+  case decr i => cases i <;> simp
+  case notify i => cases i <;> simp
 
 /-- NEGATIVE CONTROL (non-vacuity).  In the variant whose `drop` calls `notify_waiters()` BEFORE
     releasing the count, the interleaving
